@@ -31,7 +31,9 @@ type gixSeries struct {
 	Tags map[string]string
 }
 
-func (s gixSeries) Key() string { return string(models.MakeKey([]byte(s.Name), models.NewTags(s.Tags))) }
+func (s gixSeries) Key() string {
+	return string(models.MakeKey([]byte(s.Name), models.NewTags(s.Tags)))
+}
 
 func (s gixSeries) String() string {
 	ks := make([]string, 0, len(s.Tags))
